@@ -34,7 +34,7 @@ func init() {
 	vfw.Register(&vfw.Check{
 		ID:    "C17",
 		Level: "exploration",
-		Rule: "one case = one simulated validation ceremony (sometimes two consecutive ones) over 3-6 replicas that each run the real ValidationCeremony for their own identity, plus identities nobody operates; " +
+		Rule: "one case = one simulated validation ceremony (sometimes two consecutive ones) over 3-6 replicas that each run the real ValidationCeremony for their own identity, plus identities nobody operates; three runs in four use small shard size limits, so that the second of two consecutive ceremonies runs in 2-4 shards (lottery, key delivery and evidence majority are judged per shard); " +
 			"replicas differ in map seed, time zone, clock skew, transaction and key arrival (lossy gossip), restarts between and inside ceremony phases, absence during the ceremony (catch-up from blocks only), and in whether they evaluate the epoch first at proposal, at validation or at insertion; " +
 			"sometimes a competing block at the finishing height is validated first, sometimes a participant that does not run the reference client sends an evidence transaction with a payload of its own making (13 kinds: empty, truncated, inconsistent roaring headers, random bytes, a few kilobytes naming 2^26 candidates; crashes, disagreement and - for those runs - allocation of the finishing round are judged, the majority rule only for epochs with well-formed evidence); non-trivial = the validation did not fail, at least two users answered and at least one replica was restarted, absent or pre-validated; distinct by history fingerprint",
 		Real:         realCeremony,
